@@ -410,4 +410,33 @@ example :
       .copyAtRead [.read, .read, .read, .run 2, .run 0, .run 0]) =
     ⟨[0, 0, 0, 3, 1, 97, 0, 53, 7, 80, 1, 1], [], [], [⟨[97], 53, [7]⟩, ⟨[10, 1, 2, 3], 80, [1, 1]⟩]⟩ := by decide
 
+/-- The two ways back wrap the answer with `buildUDPHeader` and send it to the application. -/
+theorem C20_skel_relay_back :
+    Skel.UDPRelay_handleDNSQuery = ["dnsHandler.QueryDNS", "r.buildUDPHeader", "udpConn.WriteToUDP"] ∧
+    Skel.udpSession_receiveLoop = ["tunnel.ReceivePacket", "relay.buildUDPHeader", "udpConn.WriteToUDP"] := by
+  decide
+
+/-- **Both directions, every burst, every schedule, with or without a DNS handler.**  Tunnels get
+exactly the non-DNS payloads for their destinations; the DNS handler gets exactly the port-53
+payloads with server `host:53` (the virtual DNS address replaced by the default server); and for
+whatever the tunnels / the handler answer (`answer`), the application receives one RFC datagram per
+answer that parses to the destination the answer belongs to, the same port and the answer intact
+(re-encoding a parsed header and parsing it again, on the real return path). -/
+theorem C20_relay_both_directions (c : IPText) (hrt : c.RT) (dns : Bool) (answer : Bool → Bytes → Bytes)
+    (ds : List Bytes) (sch : List RStep)
+    (hq : ((Relay.init ds).exec c .copyAtRead sch).quiescent = true) :
+    holdsRelayIO c dns answer ds
+      (relayIO c dns answer ((Relay.init ds).exec c .copyAtRead sch).sent) = true :=
+  relayIO_holds c hrt dns answer ds sch hq
+
+/-- Non-vacuity: one tunnel datagram and one DNS datagram to the virtual DNS address. -/
+example :
+    relayIO toyIP true (fun isDns p => (if isDns then 213 else 165) :: p)
+      ((Relay.init [[0, 0, 0, 1, 9, 9, 9, 9, 0, 80, 7], [0, 0, 0, 3, 8, 49, 48, 46, 48, 46, 48, 46, 49, 0, 53, 1, 2]]).exec
+        toyIP .copyAtRead [.read, .read, .run 1, .run 0]).sent =
+    ⟨[⟨[9, 9, 9, 9], 80, [7]⟩],
+     [([49, 49, 57, 46, 50, 57, 46, 50, 57, 46, 50, 57, 58, 53, 51], [1, 2])],
+     [[0, 0, 0, 3, 8, 49, 48, 46, 48, 46, 48, 46, 49, 0, 53, 213, 1, 2], [0, 0, 0, 1, 9, 9, 9, 9, 0, 80, 165, 7]]⟩ := by
+  decide +kernel
+
 end Tunnox.C20
